@@ -37,19 +37,28 @@ package disk
 //@ func store.emitUsageMetrics
 //@   trusted
 
-// Path construction: pure string functions of the key.
+// Path construction: pure string functions of the key that touch no in-memory state and never
+// index past the end of the key (the shard directories are cut out of the key two characters at a
+// time).
 //@ func pather.blobPath
-//@   trusted
+//@   requires p != nil
+//@   nopanic
 //@ func pather.dirPath
-//@   trusted
+//@   requires p != nil
+//@   nopanic
+//@   loop 0 invariant in_key: 0 <= i
 //@ func pather.sidecarFilePath
-//@   trusted
+//@   requires p != nil
+//@   nopanic
 
-// Writes one sidecar file; touches no in-memory state.
+// Each writes or removes files only; neither touches the in-memory view (checked: no store to a
+// field, no call with a contract that modifies one).
 //@ func store.persistBlobSize
-//@   trusted
+//@   requires s != nil && s.pather != nil
+//@   nopanic
 //@ func store.deleteFromDisk
-//@   trusted
+//@   requires s != nil && s.pather != nil
+//@   nopanic
 
 // ---- invariants as spec functions (for functions running with the lock held) --------------------
 //@ specfunc i_ptr(s *store) bool = forall k string :: k in s.blobs ==> s.blobs[k] != nil && allocated(s.blobs[k])
